@@ -231,6 +231,8 @@ def nnf_structure(nnf):
     vs = {}
 
     def varset(i):
+        if i is None or i == 0:
+            return frozenset()
         i = abs(i)
         if i in vs:
             return vs[i]
